@@ -22,3 +22,20 @@ kani_unit("air_assertions", "winter-air", "air/src/air/assertions/mod.rs", "kani
       "forall trace lengths, steps, strides: single valid iff n power of two and step < n; periodic valid iff stride <= n; number of named steps is 1 resp. n / stride"),
     H("air_assertions_canary_must_fail", ["C16"], [], "false claim: assertions never overlap", canary=True),
 ])
+
+DBL = "doubles: ChannelDouble (hands out commitments / remainder), StubHasher, RecordingCoin (state = running digest of the absorbed operations); parametricity of FriVerifier in its channel, hasher and coin"
+kani_unit("fri_verifier", "winter-fri", "fri/src/verifier/mod.rs", "kani/fri_verifier.rs", "verifier", [
+    H("fri_verifier_new_contract", ["C05", "C04"], ["FriVerifier::new"],
+      "3 commitments, folding 4, degree bounds 63, 255, 31, 11, 62, 14: each commitment is absorbed and exactly one challenge drawn right after it, in order, and stored for its layer; DegreeTruncation(depth) iff (d+1) is not divisible by 4^(depth+1) at a non-final depth",
+      bounded="3 layer commitments, folding factor 4, six concrete degree bounds; commitments and coin seed symbolic"),
+    H("fri_verifier_remainder_binding_contract", ["C05", "C03"], ["FriVerifier::verify", "FriVerifier::verify_generic", "VerifierChannel::read_remainder", "eval_horner"],
+      "zero-layer schedule, one query: verify == Ok implies hash_elements(remainder) == the last absorbed commitment and remainder(x_pos) == queried evaluation",
+      bounded="zero FRI layers, one query, remainder of 1 symbolic coefficient; commitment, evaluation, position symbolic"),
+    H("fri_verifier_remainder_degree_contract", ["C05"], ["FriVerifier::verify", "FriVerifier::verify_generic"],
+      "a remainder longer than the degree bound is refused with RemainderDegreeMismatch; mismatching position / evaluation counts are refused",
+      bounded="zero FRI layers, 2-coefficient remainder against bound 1"),
+    H("fri_verifier_canary_must_fail", ["C05", "C03", "C04"], [], "false claim: FriVerifier::new always fails", canary=True),
+])
+for u in UNITS:
+    if u["unit"] == "fri_verifier":
+        u["trusted"] = [DBL]
